@@ -9,7 +9,8 @@
 // edges.  Only fields that are written somewhere outside the constructor produce access nodes.
 //
 // Limits (stated in DESIGN.md): no aliasing (m := s.f; m[k] = v is a read of f), accesses through
-// other structs are not tracked, local variables shared by closures are not tracked, recursion is cut
+// other structs are not tracked, local variables shared by goroutines are the subject of the second
+// graph per package (locals.go), recursion is cut
 // at depth 8, function values stored in variables are treated as called where they are defined.
 package main
 
